@@ -522,6 +522,9 @@ def mon_c05(case, obs, prefix):
                 del under[lid]
     if not bad:
         bad += srr_must_end(case, obs, prefix)
+        # "buffered packets ... untouched": what a session holds is what was handed up for it, byte for byte, also after the
+        # producer has re-used its buffer (the harness scribbles over every packet buffer once the loop has taken the report)
+        bad += [(i_, "buffered packets: " + m_) for i_, m_ in mon_c13(case, obs, prefix) if m_.startswith("packet queues")]
     return bad
 
 
